@@ -103,6 +103,14 @@ def main(argv=None):
             sys.stderr.write("[%d/%d] %s %s %s %.1fs %s\n" % (done[0], len(parts), r.kind, r.name, r.status, r.wall_s, r.message[:200]))
             sys.stderr.flush()
 
+    wit = None
+    if hasattr(mod, "extra") and not args.only:
+        try:
+            from vf import witness
+
+            wit = witness.start_for(pid)  # real-code witnesses of listed findings run alongside the partitions
+        except Exception:
+            wit = None
     results = engine_xh.run_parts(parts, jobs=args.jobs or None, progress=progress)
     for part, r in zip(parts, results):
         total_paths += r.paths
@@ -253,6 +261,7 @@ def main(argv=None):
             "paths_explored": total_paths,
             "solver_cpu_s": round(solver_s, 2),
             "groups": _group_summary(obligations),
+            "slowest": sorted(((o.get("cpu_s", 0), o.get("paths", 0), o["name"]) for o in obligations), reverse=True)[:8],
             "known_findings_printed": known_lines,
             "inconclusive_names": [o["name"] for o in inconclusive][:50],
             "checker_cmd": "bin/check %s --tier %s" % (pid, tier),
